@@ -32,6 +32,28 @@ Theorem c09_nonces_never_repeat : forall rnd reqs, NoDup (map nonce_of (encrypt_
 Proof. exact nonces_never_repeat. Qed.
 Print Assumptions c09_nonces_never_repeat.
 
+(** Data keys are per session: over any sequence of logins - whatever session cookie of an earlier login (same
+    browser, same or another provider session id) the callback request carries - no data key is used twice ... *)
+Theorem c09_data_keys_never_repeat : forall rnd logins, NoDup (map st_dek (mint_all rnd logins)).
+Proof. exact data_keys_never_repeat. Qed.
+Print Assumptions c09_data_keys_never_repeat.
+
+(** ... so the cookie of one login never opens the value stored for another login (an earlier or later session of
+    the same browser included), whatever is substituted in the store. *)
+Theorem c09_other_sessions_blob_rejected : forall rnd logins i j t u nonce data,
+  nth_error (mint_all rnd logins) i = Some t -> nth_error (mint_all rnd logins) j = Some u -> i <> j ->
+  open_with_ticket t u nonce data = None.
+Proof. exact other_sessions_blob_rejected. Qed.
+Print Assumptions c09_other_sessions_blob_rejected.
+
+(* non-vacuity: a browser logs in, then logs in again carrying the first cookie, under another and under the same key *)
+Example c09_other_sessions_blob_rejected_nonvacuous :
+  let l := [(1%N, None); (2%N, Some 0%N); (1%N, Some 0%N)] in
+  let t0 := {| st_key := 1%N; st_dek := 1%N |} in
+  let t2 := {| st_key := 1%N; st_dek := 3%N |} in
+  (nth_error (mint_all 1%N l) 0 = Some t0) /\ (nth_error (mint_all 1%N l) 2 = Some t2) /\ (open_with_ticket t0 t2 0%N [] = None).
+Proof. repeat split. Qed.
+
 (** Opacity of the login flow: the code verifier reaches the browser only inside the encrypted login cookie;
     the authorization URL carries its S256 image, never the value. *)
 Theorem c09_verifier_not_in_front_channel : forall c q rnd ref par i k x,
